@@ -112,6 +112,10 @@ bool BarnettSmartVTMF_dlog_GroupQR::CheckGroup
 	mpz_init(foo), mpz_init(g2);
 	try
 	{
+		// Check whether $p$ and $q$ are positive.
+		if ((mpz_sgn(p) <= 0) || (mpz_sgn(q) <= 0))
+			throw false;
+
 		// Check whether $p$ and $q$ have appropriate sizes.
 		if ((mpz_sizeinbase(p, 2L) < F_size) || 
 			(mpz_sizeinbase(q, 2L) < G_size))
